@@ -453,7 +453,9 @@ def inline_calls(text, body, skip=(), depth=2):
                 continue
             if any(re.search(r"(?<![\w.])%s\s*(?:[-+*/|&^]|<<|>>)?=(?!=)|&mut\s+%s\b" % (re.escape(n), re.escape(n)), hbody) for n in names):
                 continue
-            if re.search(r"\breturn\b", hbody) and not body[e:].lstrip().startswith("?"):
+            # early returns of the helper are early returns of the caller when the call is followed by `?` or is the caller's
+            # tail expression
+            if re.search(r"\breturn\b", hbody) and not body[e:].lstrip().startswith("?") and body[e:].strip() != "":
                 continue
             inl = hbody
             # all parameters at once (an argument text may contain the name of another parameter)
@@ -462,8 +464,8 @@ def inline_calls(text, body, skip=(), depth=2):
             def sub(mm):
                 a = amap[mm.group(1)]
                 after = mm.string[mm.end():mm.end() + 1]
-                if a.startswith("&") and not a.startswith("&mut") and after == ".":
-                    a = a[1:].strip()
+                if a.startswith("&") and after == ".":
+                    a = re.sub(r"^&\s*(?:mut\s+)?", "", a)      # a receiver is borrowed automatically
                 if re.fullmatch(r"&?\*?[A-Za-z_][\w.:]*(?:\(\))?|-?[0-9][\w.]*|\"[^\"]*\"", a):
                     return a
                 return "(" + a + ")"
